@@ -54,6 +54,11 @@ func loadStd(pkgs []string) (*df.AnalyzerState, []*ssa.Function, error) {
 	}
 	var fns []*ssa.Function
 	for f := range ssautil.AllFunctions(prog) {
+		if f.TypeParams().Len() > 0 && len(f.TypeArgs()) == 0 {
+			// the body of an uninstantiated generic function: the tool loads programs with ssa.InstantiateGenerics, so
+			// such a body is never reachable and never summarised
+			continue
+		}
 		if f.Pkg != nil && want[f.Pkg.Pkg.Path()] && len(f.Blocks) > 0 && f.Synthetic == "" {
 			fns = append(fns, f)
 		}
